@@ -117,4 +117,8 @@ class Link(base.BaseObject):
             self._vertices.remove(kill)
 
             if kill is not None:
+                # a vertex may be listed more than once (e.g. both ends of a
+                # self-loop); drop every mention, as the vertex forgets this
+                # link entirely
+                self._vertices = [v for v in self._vertices if v is not kill]
                 kill.remove_from_link(self)
